@@ -31,6 +31,7 @@ PROPS = {
     "C05": "harness.corr_c05",
     "C07": "harness.corr_channel",
     "C12": "harness.corr_c12",
+    "C15": "harness.corr_bytecode",
     "C13": "harness.corr_c13",
     "C16": "harness.corr_c16",
     "C09": "harness.corr_suites",
